@@ -1,5 +1,6 @@
 """python -m vmon.worker <check id> <spec.json> <out.json>"""
 import importlib
+import os
 import json
 import sys
 
@@ -13,6 +14,17 @@ def load_check(check_id):
 def main(argv):
     check_id, specf, outf = argv
     sys.setrecursionlimit(20000)
+    # a generated program may grow a list without bound (thorough tier, seed 2:
+    # one worker reached 48 GB and was killed by the kernel); with an address
+    # space limit the program gets a MemoryError instead - an exception like
+    # any other, raised on both sides of a comparison
+    try:
+        import resource
+
+        lim = int(os.environ.get("VMON_WORKER_MEM_MB", "6000")) * 1024 * 1024
+        resource.setrlimit(resource.RLIMIT_AS, (lim, lim))
+    except Exception:
+        pass
     core.setup_env()
     with open(specf) as f:
         spec = json.load(f)
